@@ -22,6 +22,9 @@ func (s *sim) genBoot() Action {
 	r := s.rng
 	a := Action{K: "boot"}
 	forms := []string{"127.0.0.1:0", "127.0.0.1"}
+	if haveLocalhost {
+		forms = append(forms, "localhost:0", "localhost")
+	}
 	if haveV6 {
 		forms = append(forms, "[::1]:0", "::1")
 	}
@@ -79,10 +82,10 @@ func (s *sim) generate() (Action, bool) {
 		}
 	}
 	prof := s.cfg.Profile
-	w := map[string]int{"boot": 100, "stop": 3, "get_c": 10, "tmpl": 4, "run_script": 6, "open": 6, "bad": 3, "line": 8, "out": 8, "close": 4, "sleep": 3, "del_cache": 1, "probe": 2, "io": 2, "burst": 2, "regen": 1, "pre": 2}
+	w := map[string]int{"boot": 100, "stop": 3, "get_c": 10, "tmpl": 4, "run_script": 6, "open": 6, "bad": 3, "line": 8, "out": 8, "close": 4, "sleep": 3, "del_cache": 1, "probe": 2, "io": 2, "burst": 2, "regen": 1, "pre": 2, "chain": 1, "resetl": 2}
 	switch prof {
 	case "C05":
-		w["stop"], w["get_c"], w["run_script"], w["close"], w["del_cache"], w["regen"] = 8, 12, 8, 8, 2, 3
+		w["stop"], w["get_c"], w["run_script"], w["close"], w["del_cache"], w["regen"], w["chain"] = 8, 12, 8, 8, 2, 3, 4
 	case "C07":
 		w["get_c"], w["tmpl"], w["run_script"], w["stop"], w["burst"] = 30, 12, 8, 2, 8
 	case "C12":
@@ -97,6 +100,7 @@ func (s *sim) generate() (Action, bool) {
 	add(Action{K: "run_script"}, w["run_script"])
 	add(Action{K: "del_cache"}, w["del_cache"])
 	add(Action{K: "regen_cache"}, w["regen"])
+	add(Action{K: "chain_cache"}, w["chain"])
 	add(Action{K: "burst_c", N: r.Range(2, 6), Which: []string{"", "hold"}[r.Intn(2)]}, w["burst"])
 	add(Action{K: "probe"}, w["probe"])
 	add(Action{K: "sleep", Ms: []int{1, 100, 1900, 2100, 5000, 60000}[r.Intn(6)]}, w["sleep"])
@@ -144,6 +148,10 @@ func (s *sim) generate() (Action, bool) {
 			add(Action{K: k, S: len(s.sess), ID: badID, Which: "bad", N: r.Intn(3)}, w["bad"])
 		}
 		add(Action{K: "out", S: live.n, B: []byte(fmt.Sprintf("<out%d.%d>\xff\x00\r\n", live.n, len(live.sentOut)))}, w["out"])
+		if s.job.Mode != "selftest" {
+			// (its outcome - no line or one line lost - is the runtime's to choose, so not in self-test runs)
+			add(Action{K: "reset_lines", S: live.n, N: r.Range(1, 4)}, w["resetl"])
+		}
 		add(Action{K: "close", S: live.n, Which: []string{"", "", "out"}[r.Intn(3)], Reset: r.Chance(1, 3)}, w["close"])
 	}
 	add(Action{K: "line", B: []byte(fmt.Sprintf("line-%d \"q\" %%s", len(s.entered)))}, w["line"])
